@@ -4,7 +4,9 @@ the error lists are of arbitrary length."""
 import itertools
 from pyvc.contract import contract, set_scope, Const
 from pyvc.tys import *
+import contracts.syntax      # abstract Segment
 from specs.errtree import *
+from specs.prim import int_or_none
 
 set_scope('contracts.error_handler')
 
@@ -59,3 +61,48 @@ contract('pyx12.error_handler.err_gs._get_ack_code', type_cases=GS_SHAPES, retur
 contract('pyx12.error_handler.err_gs.count_failed_st', type_cases=GS_SHAPES, returns=Int,
          ensures=['result == len(self.children) - accepted_sets(self)'],
          raises={}, serves=['C05'])
+
+# the verdict side of C05: x12n_document answers False exactly when errh.get_error_count() > 0; at group level that count is
+# positive exactly when an error is stored at or below the group - the same condition under which _get_ack_code answers 'R'
+contract('pyx12.error_handler.err_gs.get_error_count', type_cases=GS_SHAPES, returns=Int,
+         ensures=['(result > 0) == (stored_gs(self) > 0)', 'result >= 0'],
+         raises={}, serves=['C05'],
+         inline=['pyx12.error_handler.err_seg.err_count', 'pyx12.error_handler.err_st.err_count', 'pyx12.error_handler.err_st.get_error_count',
+                 'pyx12.error_handler.err_ele.get_error_count', 'pyx12.error_handler.err_ele.err_count'])
+
+_GS_SMALL = [(), ((),), ((1,),), ((), (1,))]
+
+
+def isa_t(gss):
+    return Obj('pyx12.error_handler.err_isa', errors=ERR2, elements=ListLit(ele_t()), children=ListLit(*[gs_t(g) for g in gss]))
+
+
+ISA_SHAPES = [('isa with groups %s' % ([[list(x) for x in g] for g in s],), {'self': isa_t(s)})
+              for n in range(0, 3) for s in itertools.product(_GS_SMALL, repeat=n)]
+ROOT_SHAPES = [('root with interchanges %s' % (list(s),), {'self': Obj('pyx12.error_handler.err_handler', children=ListLit(*[isa_t(i) for i in s]))})
+               for n in range(0, 3) for s in itertools.product(((), (((1,),),)), repeat=n)]
+
+contract('pyx12.error_handler.err_isa.get_error_count', type_cases=ISA_SHAPES, returns=Int,
+         ensures=['(result > 0) == (stored_isa(self) > 0)', 'result >= 0'],
+         raises={}, serves=['C05'])
+
+contract('pyx12.error_handler.err_handler.get_error_count', type_cases=ROOT_SHAPES, returns=Int,
+         ensures=['(result > 0) == (stored_root(self) > 0)', 'result >= 0'],
+         raises={}, serves=['C05'],
+         note='the verdict of x12n_document is `valid and errh.get_error_count() == 0`: zero exactly when no error tuple is stored anywhere in the tree')
+
+
+_GS_CLOSE_ENS = ["(self.ack_code == 'A') == (stored_gs(self) == 0)", "self.ack_code in ('A', 'R')",
+                 'self.st_count_recv == src.st_count', 'self.cur_line_ge == src.cur_line']
+
+contract('pyx12.error_handler.err_gs.close', type_cases=GS_SHAPES,
+         params={'node': NoneT, 'seg_data': Opt(Opaque('Segment')), 'src': Obj('ext.Src', cur_line=Int, st_count=Int)},
+         returns=NoneT,
+         requires=["seg_data is None or seg_data.get_seg_id() == 'GE'"],
+         ensures=_GS_CLOSE_ENS + ['seg_data is not None or self.st_count_orig == 0',
+                                  "seg_data is None or self.st_count_orig == (0 if int_or_none(seg_data.get_value('GE01')) is None "
+                                  "else int_or_none(seg_data.get_value('GE01')))"],
+         raises={}, serves=['C05'],
+         note='closing a group fixes AK901 (A exactly when nothing is stored below), AK902 (GE01 when it is an integer literal, else 0) '
+              'and AK903 (the reader\'s count of sets received); no exception for any GE.  The precondition is the guard of the only call '
+              'site (x12n_document.py: `elif seg.get_seg_id() == \'GE\'`), which is not itself under contract: unchecked assumption')
